@@ -3,6 +3,8 @@ import time
 
 import z3
 
+from engine import xcheck
+
 from engine.pysym import Engine, Interp, SStr, Unsupported, lift_c, mk
 from stix2 import patterns as PT
 
@@ -71,7 +73,7 @@ def job_escape(tier, seed):
                 s.add(*pc)
                 s.add(z3.Not(post))
                 eng.queries += 1
-                r = str(s.check())
+                r = xcheck.check(s)
                 if r == "unsat":
                     if len(samples) < 3:
                         samples.append({"length": L, "path_condition": [str(x) for x in pc[-2:]], "query": "unescape(escape(s)) != s", "result": "unsat"})
